@@ -859,6 +859,15 @@ func e1RunAll(c *Ctx, specs []e1Spec, workers int) []*e1Result {
 		workers = 16
 	}
 	exe, _ := os.Executable()
+	if info, err := os.ReadFile(exe + ".info"); err == nil {
+		c.Extra("instrumentation", strings.TrimSpace(string(info)))
+		if !strings.Contains(string(info), "uncontrolled=0") {
+			c.Capped("the instrumented file uses constructs the scheduler cannot control (channels / select / timers): interleavings around them are not explored (" + strings.TrimSpace(string(info)) + ")")
+		}
+		if strings.Contains(string(info), "go=0 ") {
+			c.Capped("no go statement was found in the instrumented file: the concurrent tasks are started elsewhere and are not under the scheduler")
+		}
+	}
 	results := make([]*e1Result, len(specs))
 	var wg sync.WaitGroup
 	sem := make(chan struct{}, workers)
